@@ -207,38 +207,44 @@ def run_abssum(cfg):
     eng = Engine(name="abssum")
     Z = symx.make_z3model_class()
     for mode in ("unit", "pce", "symbolic"):
-        m = Z("abs")
-        vs = [m.addVar(lb=-m.INF, ub=m.INF, name=f"E_{i}") for i in range(k)]
-        if mode == "unit":
-            coeffs, cz = None, [z3.RealVal(1)] * k
-        elif mode == "pce":
-            coeffs = {"E_0": 2.0}
-            cz = [z3.RealVal(2)] + [z3.RealVal(1)] * (k - 1)
-        else:
-            cs = [z3.Real(f"c{i}") for i in range(k)]
-            coeffs = {f"E_{i}": S(cs[i]) for i in range(k)}
-            cz = cs
-        total = m.abssum(vs, coeffs=coeffs)  # the real inherited helper
-        cons = m.z3_constraints()
-        hyp = [c >= 0 for c in cz] if mode == "symbolic" else []
-        spec = z3.Sum([cz[i] * z3.If(vs[i].zv >= 0, vs[i].zv, -vs[i].zv)
-                       for i in range(k)])
-        t0 = time.time()
-        st, mdl = eng.prove(cons + hyp, total.z3() >= spec)
-        ob(res, f"abssum{k}/{mode}: constraints => result >= sum c|v|", st,
-           time.time() - t0)
-        if st == "sat":
-            _abs_violation(res, k, mode, mdl, vs, cz)
-        # tightness: ABS := |v| satisfies all constraints and gives equality
-        absvars = [v for v in m.vars if v.raw.startswith("ABS_")]
-        wit = [absvars[i].zv == z3.If(vs[i].zv >= 0, vs[i].zv, -vs[i].zv)
-               for i in range(k)] if len(absvars) == k else [z3.BoolVal(False)]
-        t0 = time.time()
-        st, mdl = eng.prove(wit + hyp, z3.And(cons + [total.z3() == spec]))
-        ob(res, f"abssum{k}/{mode}: witness ABS=|v| is feasible and attains sum c|v|",
-           st, time.time() - t0)
-        if st == "sat":
-            _abs_violation(res, k, mode, mdl, vs, cz)
+        def build():
+            m = Z("abs")
+            vs = [m.addVar(lb=-m.INF, ub=m.INF, name=f"E_{i}") for i in range(k)]
+            if mode == "unit":
+                coeffs, cz = None, [z3.RealVal(1)] * k
+            elif mode == "pce":
+                coeffs = {"E_0": 2.0}
+                cz = [z3.RealVal(2)] + [z3.RealVal(1)] * (k - 1)
+            else:
+                cs = [z3.Real(f"c{i}") for i in range(k)]
+                coeffs = {f"E_{i}": S(cs[i]) for i in range(k)}
+                cz = cs
+            total = m.abssum(vs, coeffs=coeffs)  # the real inherited helper
+            return m, vs, cz, total
+
+        # (inside the engine: code that branches on a symbolic weight forks the path)
+        hyp0 = [z3.Real(f"c{i}") >= 0 for i in range(k)] if mode == "symbolic" else []
+        for dec, pc, (m, vs, cz, total) in eng.explore(build, hyp0, max_paths=256):
+            cons = m.z3_constraints()
+            hyp = []
+            spec = z3.Sum([cz[i] * z3.If(vs[i].zv >= 0, vs[i].zv, -vs[i].zv)
+                           for i in range(k)])
+            t0 = time.time()
+            st, mdl = eng.prove(cons + hyp, total.z3() >= spec)
+            ob(res, f"abssum{k}/{mode}: constraints => result >= sum c|v|", st,
+               time.time() - t0)
+            if st == "sat":
+                _abs_violation(res, k, mode, mdl, vs, cz)
+            # tightness: ABS := |v| satisfies all constraints and gives equality
+            absvars = [v for v in m.vars if v.raw.startswith("ABS_")]
+            wit = [absvars[i].zv == z3.If(vs[i].zv >= 0, vs[i].zv, -vs[i].zv)
+                   for i in range(k)] if len(absvars) == k else [z3.BoolVal(False)]
+            t0 = time.time()
+            st, mdl = eng.prove(wit + hyp, z3.And(cons + [total.z3() == spec]))
+            ob(res, f"abssum{k}/{mode}: witness ABS=|v| is feasible and attains sum c|v|",
+               st, time.time() - t0)
+            if st == "sat":
+                _abs_violation(res, k, mode, mdl, vs, cz)
     # vacuity twin: with a negative coefficient the lower-bound lemma must fail
     m = Z("abs")
     vs = [m.addVar(lb=-m.INF, ub=m.INF, name=f"E_{i}") for i in range(k)]
